@@ -134,8 +134,11 @@ def lastKey : List Step → Key
   | [.idx _] => []
   | _ :: r => lastKey r
 
+/-- the parts of an appender entry that `AppenderConfig` / `FilterConfig` type while the DOCUMENT
+is parsed: the entry itself, its `kind`, its `filters` list, a filter entry, a filter's `kind` -/
 def isEnvelope (path : List Step) : Bool :=
   match path with
+  | [.key top, .key _] => top = c!"appenders"
   | [.key top, .key _, .key f] => top = c!"appenders" && (f = c!"kind" || f = c!"filters")
   | [.key top, .key _, .key f, .idx _] => top = c!"appenders" && f = c!"filters"
   | [.key top, .key _, .key f, .idx _, .key k] => top = c!"appenders" && f = c!"filters" && k = c!"kind"
@@ -150,7 +153,8 @@ def signature (cls : String) (path : List Step) (payload : Option Value) (impl :
       | _ => "C14/time-trigger-interval-out-of-range"
     else "C14/panic-" ++ cls
   else if cls = "seqs" then "C14/seq-for-struct-accepted"
-  else if isEnvelope path ∧ cls ≠ "unk" then "C14/appender-envelope-error-rejects-document"
+  else if isEnvelope path ∧ cls ≠ "unk" ∧ (impl.splitOn "lossy=err").length > 1 then
+    "C14/appender-envelope-error-rejects-document"
   else if (impl.splitOn "DISAGREE").length > 1 then "C14/formats-disagree-" ++ cls
   else "C14/" ++ cls
 
